@@ -74,6 +74,7 @@ def _has_cycle(names, arcs):
 
 def impl_fn(case):
     m = impl.build_uni(case)
+    impl.prime_params(m, case, lambda mm: (mm.transition_matrix(), hash(mm.graph)))
     T = m.transition_matrix()
     sl = m.graph.state_list
     tp = np.zeros_like(T)
